@@ -535,6 +535,8 @@ def ast_grid(ctx, suspects, failures):
                     meta.append((d, ka, kb, s, i, j))
     outs = drive(ctx, reqs)
     for (d, ka, kb, s, i, j), o in zip(meta, outs):
+        if 'driver_error' in o:
+            ctx.divergence('the AST the real STRING_SLICE builds is outside the node kinds of the evaluator', [d, ka, kb, i, j], model=o['driver_error'][:200], impl=None); continue
         py = s[i:j]
         exp = ('ok', None if (d == 'Oracle' and py == '') else py)
         got = sval_out(o)
